@@ -1541,9 +1541,22 @@ func ruleMapFromPointers(c *Ctx, id string) {
 						if g := staticCallee(cl); g != nil && (g == V.indbmap || g == V.bmap) {
 							return
 						}
+						// a private helper of the block map (an arm extracted): what it returns
+						if g := staticCallee(cl); g != nil && isPrivateHelper(g) && g.Blocks != nil && relPkg(g) == relPkg(f) && n < 200 {
+							for _, rs := range returnSources(g, x.Index) {
+								leaf(rs.Val)
+							}
+							return
+						}
 					}
 				case *ssa.Call:
 					if g := staticCallee(x); g != nil && (g == V.AllocBlock || g.Name() == "BnumGet") {
+						return
+					}
+					if g := staticCallee(x); g != nil && isPrivateHelper(g) && g.Blocks != nil && relPkg(g) == relPkg(f) && g != V.bmap && g != V.indbmap && n < 200 {
+						for _, rs := range returnSources(g, 0) {
+							leaf(rs.Val)
+						}
 						return
 					}
 				case *ssa.UnOp:
